@@ -54,6 +54,9 @@ type Scenario struct {
 	// Backlog: both sync event channels are full (sync lags far behind) when the scan starts; sync only
 	// resumes consuming later. Nothing found meanwhile may be lost.
 	Backlog bool `json:"backlog,omitempty"`
+	// ViaClient: the node reads the DA layer through its real DA client (da/jsonrpc), which sees only the
+	// text of a remote error.
+	ViaClient bool `json:"via_client,omitempty"`
 }
 
 func genOutcomes(t *rapid.T) []world.FetchOutcome {
@@ -68,7 +71,7 @@ func genOutcomes(t *rapid.T) []world.FetchOutcome {
 		if k == "chunkerr" || k == "listerr" {
 			// flavours of a transient failure: generic, deadline exceeded, the DA layer's own deadline /
 			// timeout errors, and a call that hangs until the fetch timeout fires
-			o.Err = rapid.SampledFrom([]string{"", "", "deadline", "da-deadline", "timeout", "hang", "notfound"}).Draw(t, "flavour")
+			o.Err = rapid.SampledFrom([]string{"", "", "deadline", "da-deadline", "timeout", "hang", "notfound", "lagging", "nomethod"}).Draw(t, "flavour")
 			if k == "listerr" && o.Err == "notfound" {
 				o.Err = "" // a listing answered "not found" IS an empty height for the caller (outcome kind notfound), not a fault
 			}
@@ -105,6 +108,7 @@ func gen(t *rapid.T) Scenario {
 	sc.Below = sc.Start > 0 && rapid.Bool().Draw(t, "below")
 	sc.CustomPayload = rapid.IntRange(0, 2).Draw(t, "custompayload") == 0
 	sc.Backlog = rapid.IntRange(0, 5).Draw(t, "backlog") == 0
+	sc.ViaClient = rapid.IntRange(0, 2).Draw(t, "viaclient") == 0
 	return sc
 }
 
@@ -207,6 +211,7 @@ func run(sc Scenario, dir string) world.Verdict {
 		da.SetHead(top)
 		o := c.Opts
 		o.DAStartHeight = sc.Start
+		o.ViaDAClient = sc.ViaClient
 		cc := *c
 		cc.Opts = o
 		f, err := fw.NewFull(&cc, root+"/f", da)
@@ -405,6 +410,16 @@ func run(sc Scenario, dir string) world.Verdict {
 		}
 		if sc.Backlog {
 			ls = append(ls, "sync-backlog-full")
+		}
+		if sc.ViaClient {
+			ls = append(ls, "through-the-real-da-client")
+			for _, hs := range sc.Heights {
+				for _, o := range hs.Outcomes {
+					if o.Err == "lagging" || o.Err == "nomethod" {
+						ls = append(ls, "remote-error-saying-not-found-about-something-else")
+					}
+				}
+			}
 		}
 		return world.OK(successAfterFailure && junkNextToGenuine && multiChunk, ls...)
 	})
